@@ -121,14 +121,15 @@ func (p ParallelBatchParser[T]) processAsync(batches []string, work func(int, st
 // splitIntoChunks divides a string into n substrings of roughly equal byte-size
 // (not character-count). The chunk’s byte size might differ slightly: (a) because
 // the last chunk contains the remainder, which will probably be smaller, and (b)
-// because the chunks are never divided in between UTF-8 code points.
+// because the chunks are never divided in between UTF-8 code points or in between
+// the two characters of a `\r\n` line ending.
 func splitIntoChunks(txt string, numberOfBatches int) []string {
 	batchByteSize := int(math.Ceil(float64(len(txt)) / float64(numberOfBatches)))
 	batches := make([]string, numberOfBatches)
 	pointer := 0
 	for i := 0; i < numberOfBatches; i++ {
 		nextPointer := pointer + batchByteSize
-		for nextPointer < len(txt) && !utf8.RuneStart(txt[nextPointer]) {
+		for nextPointer < len(txt) && (!utf8.RuneStart(txt[nextPointer]) || isWithinCRLF(txt, nextPointer)) {
 			nextPointer++
 		}
 		if nextPointer > len(txt) {
@@ -140,6 +141,12 @@ func splitIntoChunks(txt string, numberOfBatches int) []string {
 		pointer = nextPointer
 	}
 	return batches
+}
+
+// isWithinCRLF checks whether the position is in between the two characters
+// of a `\r\n` line ending sequence.
+func isWithinCRLF(txt string, pointer int) bool {
+	return pointer > 0 && txt[pointer] == '\n' && txt[pointer-1] == '\r'
 }
 
 func countBytes(b txt.Block) int {
